@@ -18,11 +18,11 @@ from e3lib import Drv, rows, row_paths, vtodo, rd, judge, split_mail, shim_event
 
 JOBS = ('silent', 'out3', 'err3', 'alt50', 'big', 'cat')
 EXITS = ('0', '3', 'term', 'kill')
-KNOBS = ('cwd', 'umask', 'shell', 'ifile', 'noorg', 'noatt', 'mailrun', 'att2', 'slowmail')
+KNOBS = ('cwd', 'umask', 'shell', 'ifile', 'noorg', 'noatt', 'mailrun', 'att2', 'slowmail', 'mailfail')
 # clauses a knob can bear on; routing clauses do not carry the knob in their signature
 KNOB_CLAUSES = ('cwd', 'umask', 'stdin', 'shell', 'mail-unwanted', 'mail-count', 'mail-hdr', 'run-count', 'hang', 'echsx-died')
 # under the slowmail knob (1 s limit, job done at once, mailer busy for 2 s) every clause carries the knob
-ALL_CLAUSES_KNOBS = ('slowmail',)
+ALL_CLAUSES_KNOBS = ('slowmail', 'mailfail')
 SIZES = {'silent': (0, 0), 'out3': (192, 0), 'err3': (0, 192), 'alt50': (1600, 1600), 'big': (204800, 204800)}
 IFILE_TEXT = b''.join(bytes([97 + (i * 5 + i // 64) % 26]) if i % 64 != 63 else b'\n' for i in range(70000))
 
@@ -78,11 +78,61 @@ def main():
                 shutil.rmtree(d, ignore_errors=True)
             if D.stop():
                 break
+        # two executors at once on one journal, each through a descriptor of its own that stood at the end of the
+        # journal when its executor was started (the way echsd opens it: no O_APPEND); the one started first ends last
+        for order in ('slow-first',):
+            if not D.next():
+                continue
+            d = os.path.join(base, '%d' % D.idx)
+            os.makedirs(os.path.join(d, 'run'))
+            run_pair(D, d, uid, echsx, shim, rec, job)
+            if not D.opt('keep'):
+                shutil.rmtree(d, ignore_errors=True)
     finally:
         if not D.opt('keep'):
             shutil.rmtree(base, ignore_errors=True)
     D.summary()
     return 0
+
+
+def run_pair(D, d, uid, echsx, shim, rec, job):
+    row = [r for r in rows() if r['name'] == 'R20'][0]   # no files, no mail: the journal is all there is
+    jn = os.path.join(d, 'journal')
+    open(jn, 'wb').close()
+    procs = []
+    D.desc('two echsx processes share one journal through separate descriptors: A (exit 3 after 2 s) is started, then B (exit 5 at once); both entries must be in the journal')
+    for tag, cmd, delay in (('A', 'sleep 2; exit 3', 0.0), ('B', 'exit 5', 0.5)):
+        time.sleep(delay)
+        txt = vtodo('c13-pair-%s' % tag, cmd, row, d, uid, {})
+        rq = os.path.join(d, 'req%s.ics' % tag)
+        with open(rq, 'w') as f:
+            f.write(txt)
+        fd = os.open(jn, os.O_RDWR)
+        os.lseek(fd, 0, os.SEEK_END)
+        env = {'LD_PRELOAD': shim, 'E3_MAILREC': rec, 'E3_MAILFILE': os.path.join(d, 'mail' + tag),
+               'E3_LOG': os.path.join(d, 'shim%s.log' % tag), 'PATH': '/usr/bin:/bin'}
+        procs.append(subprocess.Popen([echsx, '-v'], stdin=open(rq, 'rb'), stdout=fd, stderr=subprocess.DEVNULL,
+                                      cwd=os.path.join(d, 'run'), env=env, start_new_session=True))
+        os.close(fd)
+    for p in procs:
+        try:
+            p.wait(timeout=D.case_timeout)
+        except subprocess.TimeoutExpired:
+            try:
+                os.killpg(p.pid, signal.SIGKILL)
+            except OSError:
+                pass
+            p.wait()
+            D.viol('hang/pair', 'echsx did not finish within %.0f s' % D.case_timeout)
+            return
+    j = e3lib.parse_journal(rd(jn))
+    got = sorted((e.get('UID'), e.get('X-EXIT-STATUS')) for e in j)
+    want = [('c13-pair-A', '3'), ('c13-pair-B', '5')]
+    if got != want:
+        D.viol('journal-shared/pair', 'journal holds %r, expected %r' % (got, want))
+    D.nontrivial()
+    D.count('pair_runs')
+    D.sample('pair on one journal: %r' % (got,))
 
 
 def sweep_tmp(d):
@@ -133,6 +183,10 @@ def run_case(D, d, row, jobm, ex, knob, uid, echsx, shim, rec, job):
            'E3_LOG': os.path.join(d, 'shim.log'), 'PATH': '/usr/bin:/bin'}
     if knob == 'slowmail':
         env['E3_MAILDELAY'] = '2'
+    if knob == 'mailfail':
+        # the mailer takes the message and reports EX_TEMPFAIL: echsx may complain, but the job has run, its
+        # status is journalled and nothing is left behind
+        env['E3_MAILEXIT'] = '75'
     t0 = int(time.time())
     with open(os.path.join(d, 'req.ics'), 'rb') as fi, open(os.path.join(d, 'journal'), 'wb') as fo, \
             open(os.path.join(d, 'echsx.err'), 'wb') as fe:
